@@ -3,8 +3,9 @@ from common import hx
 
 TEST_NAMES = [b"TestA", b"TestAB", b"TestA/sub", b"TestA/sub#01", b"TestA/sub/deep", b"TestB",
               b"TestB/x_y", b"TestZeta", b"TestA1", b"TestA10", b"Test\xce\xa9mega", b"TestB/[k]"]
-# names with a `%` (t.Run("50% off") gives .../50%_off): multi-entry APIs only - in standalone file names `%` is finding K8
+# names with a `%` (t.Run("50% off") gives .../50%_off); in standalone file names `%` was finding K8 (fixed: F8)
 PCT_NAMES = [b"TestPct/50%_off", b"TestFmt/%s_%d", b"TestEsc/%20_%2F"]
+PCT_STANDALONE = [b"TestPct/100%", b"TestPct/x%dy", b"TestPct/%%", b"TestPct/%v%!d(MISSING)"]
 MULTI_NAMES = TEST_NAMES + PCT_NAMES
 NONTEST_NAMES = [b"FuzzThing/seed#0", b"BenchmarkX", b"ExampleY"]
 
